@@ -263,3 +263,180 @@ theorem Alg.safeIn_annotate_of_mustOK : ∀ (P : Alg) (ctx : List Nat), P.values
     exact hvm.imp (Alg.may_subset_addVars a hv.1 v) (Alg.may_subset_addVars b hv.2 v)
 
 end RV.C04
+
+namespace RV.C04
+open Spec Model
+variable {n : Nat}
+
+/-! ### the lazy flags only matter for speed — wherever `safeIn` holds -/
+
+theorem scopeForget_mono {ctx ctx' rel ann must may : List Nat} (hsub : ∀ v ∈ ctx', v ∈ ctx)
+    (h : scopeForget ctx rel ann must may = true) : scopeForget ctx' rel ann must may = true := by
+  simp only [scopeForget, List.all_eq_true, Bool.or_eq_true, Bool.not_eq_eq_eq_not, Bool.not_true,
+    List.contains_eq_mem, decide_eq_false_iff_not] at h ⊢
+  intro i hi
+  rcases h i hi with h1 | h1
+  · exact Or.inl (fun hc => h1 (hsub i hc))
+  · exact Or.inr h1
+
+theorem scopeRemember_mono {ctx ctx' rel ann must may : List Nat} (hsub : ∀ v ∈ ctx', v ∈ ctx)
+    (h : scopeRemember ctx rel ann must may = true) : scopeRemember ctx' rel ann must may = true := by
+  simp only [scopeRemember, List.all_eq_true, Bool.and_eq_true, Bool.or_eq_true, Bool.not_eq_eq_eq_not, Bool.not_true,
+    List.contains_eq_mem, decide_eq_false_iff_not] at h ⊢
+  intro i hi
+  obtain ⟨h2, h1⟩ := h i hi
+  refine ⟨h2, ?_⟩
+  rcases h1 with (h1 | h1) | h1
+  · exact Or.inl (Or.inl (fun hc => h1 (hsub i hc)))
+  · exact Or.inl (Or.inr h1)
+  · exact Or.inr h1
+
+/-- a smaller context is easier: `safeIn` is antitone in `ctx` -/
+theorem Alg.safeIn_mono : ∀ (P : Alg) (ctx ctx' : List Nat), (∀ v ∈ ctx', v ∈ ctx) → P.safeIn ctx = true →
+    P.safeIn ctx' = true
+  | .bgp _, _, _, _, _ => rfl
+  | .join lz a b, ctx, ctx', hsub, h => by
+    simp only [Alg.safeIn, Bool.and_eq_true] at h ⊢
+    refine ⟨Alg.safeIn_mono a ctx ctx' hsub h.1, Alg.safeIn_mono b _ _ ?_ h.2⟩
+    cases lz
+    · simpa using hsub
+    · intro v hv
+      simp only [if_true, List.mem_append] at hv ⊢
+      exact hv.imp (hsub v) id
+  | .union a b, ctx, ctx', hsub, h => by
+    simp only [Alg.safeIn, Bool.and_eq_true] at h ⊢
+    exact ⟨Alg.safeIn_mono a ctx ctx' hsub h.1, Alg.safeIn_mono b ctx ctx' hsub h.2⟩
+  | .filter e p vars noIso, ctx, ctx', hsub, h => by
+    simp only [Alg.safeIn, Bool.and_eq_true] at h ⊢
+    obtain ⟨⟨⟨hp, he⟩, hn⟩, hs⟩ := h
+    exact ⟨⟨⟨Alg.safeIn_mono p ctx ctx' hsub hp, he⟩, hn⟩, scopeForget_mono hsub hs⟩
+  | .extend p v e vars, ctx, ctx', hsub, h => by
+    simp only [Alg.safeIn, Bool.and_eq_true] at h ⊢
+    obtain ⟨⟨⟨⟨hp, he⟩, h1⟩, h2⟩, hs⟩ := h
+    exact ⟨⟨⟨⟨Alg.safeIn_mono p ctx ctx' hsub hp, he⟩, h1⟩, h2⟩, scopeForget_mono hsub hs⟩
+  | .values _ _, _, _, _, _ => rfl
+  | .project p _, _, _, _, h => by
+    simp only [Alg.safeIn] at h ⊢
+    exact h
+  | .graph _ p, ctx, ctx', hsub, h => by
+    simp only [Alg.safeIn] at h ⊢
+    exact Alg.safeIn_mono p ctx ctx' hsub h
+  | .minus a b p1vars p2vars, ctx, ctx', hsub, h => by
+    cases p1vars with
+    | none => simp [Alg.safeIn] at h
+    | some vs =>
+      simp only [Alg.safeIn, Bool.and_eq_true] at h ⊢
+      obtain ⟨⟨⟨ha, hb⟩, hs⟩, hp2⟩ := h
+      exact ⟨⟨⟨Alg.safeIn_mono a ctx ctx' hsub ha, hb⟩, scopeRemember_mono hsub hs⟩, hp2⟩
+  | .leftJoin a b e p1vars p2vars, ctx, ctx', hsub, h => by
+    cases p1vars with
+    | none => simp [Alg.safeIn] at h
+    | some vs =>
+      simp only [Alg.safeIn, Bool.and_eq_true] at h ⊢
+      obtain ⟨⟨⟨⟨ha, hb⟩, he⟩, hs1⟩, hs2⟩ := h
+      refine ⟨⟨⟨⟨Alg.safeIn_mono a ctx ctx' hsub ha, Alg.safeIn_mono b _ _ ?_ hb⟩, he⟩, scopeForget_mono hsub hs1⟩,
+        scopeRemember_mono hsub hs2⟩
+      intro v hv
+      simp only [List.mem_append] at hv ⊢
+      exact hv.imp (hsub v) id
+
+theorem Alg.must_strict : ∀ P : Alg, P.strict.must = P.must
+  | .bgp _ => rfl
+  | .join _ a b => by simp [Alg.strict, Alg.must, Alg.must_strict a, Alg.must_strict b]
+  | .union a b => by simp [Alg.strict, Alg.must, Alg.must_strict a, Alg.must_strict b]
+  | .leftJoin a _ _ _ _ => by simp [Alg.strict, Alg.must, Alg.must_strict a]
+  | .filter _ p _ _ => by simp [Alg.strict, Alg.must, Alg.must_strict p]
+  | .extend p _ _ _ => by simp [Alg.strict, Alg.must, Alg.must_strict p]
+  | .minus a _ _ _ => by simp [Alg.strict, Alg.must, Alg.must_strict a]
+  | .graph _ p => by simp [Alg.strict, Alg.must, Alg.must_strict p]
+  | .values _ _ => rfl
+  | .project p _ => by simp [Alg.strict, Alg.must, Alg.must_strict p]
+
+theorem Alg.may_strict : ∀ P : Alg, P.strict.may = P.may
+  | .bgp _ => rfl
+  | .join _ a b => by simp [Alg.strict, Alg.may, Alg.may_strict a, Alg.may_strict b]
+  | .union a b => by simp [Alg.strict, Alg.may, Alg.may_strict a, Alg.may_strict b]
+  | .leftJoin a b _ _ _ => by simp [Alg.strict, Alg.may, Alg.may_strict a, Alg.may_strict b]
+  | .filter _ p _ _ => by simp [Alg.strict, Alg.may, Alg.may_strict p]
+  | .extend p _ _ _ => by simp [Alg.strict, Alg.may, Alg.may_strict p]
+  | .minus a _ _ _ => by simp [Alg.strict, Alg.may, Alg.may_strict a]
+  | .graph _ p => by simp [Alg.strict, Alg.may, Alg.may_strict p]
+  | .values _ _ => rfl
+  | .project p _ => by simp [Alg.strict, Alg.may, Alg.may_strict p]
+
+theorem Alg.allVars_strict : ∀ P : Alg, P.strict.allVars = P.allVars
+  | .bgp _ => rfl
+  | .join _ a b => by simp [Alg.strict, Alg.allVars, Alg.allVars_strict a, Alg.allVars_strict b]
+  | .union a b => by simp [Alg.strict, Alg.allVars, Alg.allVars_strict a, Alg.allVars_strict b]
+  | .leftJoin a b _ _ _ => by simp [Alg.strict, Alg.allVars, Alg.allVars_strict a, Alg.allVars_strict b]
+  | .filter _ p _ _ => by simp [Alg.strict, Alg.allVars, Alg.allVars_strict p]
+  | .extend p _ _ _ => by simp [Alg.strict, Alg.allVars, Alg.allVars_strict p]
+  | .minus a b _ _ => by simp [Alg.strict, Alg.allVars, Alg.allVars_strict a, Alg.allVars_strict b]
+  | .graph _ p => by simp [Alg.strict, Alg.allVars, Alg.allVars_strict p]
+  | .values _ _ => rfl
+  | .project p _ => by simp [Alg.strict, Alg.allVars, Alg.allVars_strict p]
+
+theorem specEval_strict {D : Dataset} : ∀ (P : Alg) (g : Graph) (σ : Row n),
+    Spec.eval D g σ P.strict = Spec.eval D g σ P
+  | .bgp _, _, _ => rfl
+  | .join _ a b, g, σ => by simp only [Alg.strict, Spec.eval, specEval_strict a, specEval_strict b]
+  | .union a b, g, σ => by simp only [Alg.strict, Spec.eval, specEval_strict a, specEval_strict b]
+  | .leftJoin a b _ _ _, g, σ => by simp only [Alg.strict, Spec.eval, specEval_strict a, specEval_strict b]
+  | .filter _ p _ _, g, σ => by simp only [Alg.strict, Spec.eval, specEval_strict p]
+  | .extend p _ _ _, g, σ => by simp only [Alg.strict, Spec.eval, specEval_strict p]
+  | .minus a b _ _, g, σ => by simp only [Alg.strict, Spec.eval, specEval_strict a, specEval_strict b]
+  | .graph gp p, g, σ => by simp only [Alg.strict, Spec.eval, specEval_strict p]
+  | .values _ _, _, _ => rfl
+  | .project p _, g, σ => by simp only [Alg.strict, Spec.eval, specEval_strict p]
+
+/-- without lazy joins a tree is at least as safe -/
+theorem Alg.safeIn_strict : ∀ (P : Alg) (ctx : List Nat), P.safeIn ctx = true → P.strict.safeIn ctx = true
+  | .bgp _, _, _ => rfl
+  | .join lz a b, ctx, h => by
+    simp only [Alg.safeIn, Bool.and_eq_true] at h
+    simp only [Alg.strict, Alg.safeIn, Bool.and_eq_true, Bool.false_eq_true, if_false]
+    refine ⟨Alg.safeIn_strict a ctx h.1, Alg.safeIn_strict b ctx (Alg.safeIn_mono b _ ctx ?_ h.2)⟩
+    cases lz
+    · simp
+    · intro v hv; simp [hv]
+  | .union a b, ctx, h => by
+    simp only [Alg.safeIn, Bool.and_eq_true] at h
+    simp only [Alg.strict, Alg.safeIn, Bool.and_eq_true]
+    exact ⟨Alg.safeIn_strict a ctx h.1, Alg.safeIn_strict b ctx h.2⟩
+  | .filter e p vars noIso, ctx, h => by
+    simp only [Alg.safeIn, Bool.and_eq_true] at h
+    obtain ⟨⟨⟨hp, he⟩, hn⟩, hs⟩ := h
+    simp only [Alg.strict, Alg.safeIn, Bool.and_eq_true, Alg.must_strict, Alg.may_strict]
+    exact ⟨⟨⟨Alg.safeIn_strict p ctx hp, he⟩, hn⟩, hs⟩
+  | .extend p v e vars, ctx, h => by
+    simp only [Alg.safeIn, Bool.and_eq_true] at h
+    obtain ⟨⟨⟨⟨hp, he⟩, h1⟩, h2⟩, hs⟩ := h
+    simp only [Alg.strict, Alg.safeIn, Bool.and_eq_true, Alg.must_strict, Alg.may_strict]
+    exact ⟨⟨⟨⟨Alg.safeIn_strict p ctx hp, he⟩, h1⟩, h2⟩, hs⟩
+  | .values _ _, _, _ => rfl
+  | .project p _, _, h => by
+    simp only [Alg.safeIn] at h
+    simp only [Alg.strict, Alg.safeIn]
+    exact Alg.safeIn_strict p [] h
+  | .graph _ p, ctx, h => by
+    simp only [Alg.safeIn] at h
+    simp only [Alg.strict, Alg.safeIn]
+    exact Alg.safeIn_strict p ctx h
+  | .minus a b p1vars p2vars, ctx, h => by
+    cases p1vars with
+    | none => simp [Alg.safeIn] at h
+    | some vs =>
+      simp only [Alg.safeIn, Bool.and_eq_true] at h
+      obtain ⟨⟨⟨ha, hb⟩, hs⟩, hp2⟩ := h
+      simp only [Alg.strict, Alg.safeIn, Bool.and_eq_true, Alg.must_strict, Alg.may_strict]
+      exact ⟨⟨⟨Alg.safeIn_strict a ctx ha, Alg.safeIn_strict b [] hb⟩, hs⟩, hp2⟩
+  | .leftJoin a b e p1vars p2vars, ctx, h => by
+    cases p1vars with
+    | none => simp [Alg.safeIn] at h
+    | some vs =>
+      simp only [Alg.safeIn, Bool.and_eq_true] at h
+      obtain ⟨⟨⟨⟨ha, hb⟩, he⟩, hs1⟩, hs2⟩ := h
+      simp only [Alg.strict, Alg.safeIn, Bool.and_eq_true, Alg.must_strict, Alg.may_strict]
+      exact ⟨⟨⟨⟨Alg.safeIn_strict a ctx ha, Alg.safeIn_strict b _ hb⟩, he⟩, hs1⟩, hs2⟩
+
+end RV.C04
